@@ -80,6 +80,7 @@ extern const Engine *const cpu_engine;
 extern const Engine *const reg_engine;
 extern const Engine *const sched_engine;
 
+extern std::string g_self_exe;   // path of this binary (for helper processes it execs)
 std::string repo_root();   // /repo unless ORCSIM_REPO is set
 std::string verif_root();  // directory holding replays/, evidence/
 
